@@ -256,6 +256,10 @@ def run_shard(ctx):
                 for dialect in DIALECTS:
                     if (dialect, c) not in supported:
                         continue
+                    if c in ('where', 'having', 'on') and fold_neg(fold_neg(bare))[0] == 'leaf':
+                        # WHERE/HAVING demand an operation; a folded constant such as -1 is not one (not a grouping matter)
+                        acc.count('skipped_non_boolean_context')
+                        continue
                     sql = CONTEXTS[c].format(e=text)
                     acc.ev()
                     try:
